@@ -4,6 +4,8 @@ import Driver.C21
 import Driver.C12
 import Driver.C22
 import Driver.C34
+import Driver.C29
+import Driver.C30
 /-
   Model driver: reads one request per line on stdin (`<suite> <op> <args…>`), answers one
   line per request on stdout.  Imports models only (no Mathlib, no proofs).
@@ -17,6 +19,8 @@ def dispatch (fs : List String) : String :=
   | "c12" :: rest => Driver.c12 rest
   | "c22" :: rest => Driver.c22 rest
   | "c34" :: rest => Driver.c34 rest
+  | "c29" :: rest => Driver.c29 rest
+  | "c30" :: rest => Driver.c30 rest
   | _ => "bad-op"
 
 partial def loop (h : IO.FS.Stream) (out : IO.FS.Stream) : IO Unit := do
